@@ -138,6 +138,32 @@ func phaseOf(trace []mon.Event, pos int) string {
 	return "before-first-write"
 }
 
+// apiState checks, through the public API of the SAME handle, that a failed operation left no trace either: counts,
+// catalog and contents still equal the model (a cache that was updated before the failing commit shows up here,
+// not in the raw store).
+func (f *faultRun) apiState(after string) bool {
+	s := f.S
+	for _, name := range s.m.Names() {
+		s.Count(&model.Query{Coll: name})
+		s.ListIndexes(name)
+		if s.failed {
+			return false
+		}
+	}
+	for _, ghost := range []string{"fresh", "imported", "byquery"} {
+		if s.coll(ghost) == nil {
+			s.HasCollection(ghost)
+			s.Count(&model.Query{Coll: ghost})
+			s.ListIndexes(ghost)
+		}
+	}
+	s.ListCollections()
+	if !s.failed {
+		s.CompareCollection(f.coll, "fault:api-state:"+opName(after), after)
+	}
+	return !s.failed
+}
+
 // RunFault enumerates store-call fault positions for every operation on one database shape (C04).
 func RunFault(c *core.Ctx) {
 	r := c.R
@@ -307,6 +333,11 @@ func RunFault(c *core.Ctx) {
 				}
 				if !compareSnap(c, h, s0, label, "fault:partial-effect:"+op.name+":"+ev.Kind.String()) {
 					return
+				}
+				if ev.Kind == mon.KCommit || pos%7 == 0 {
+					if !f.apiState(label) {
+						return
+					}
 				}
 				c.Cell("fault|%s|%s|%s|%s|%s", op.name, ev.Kind, phaseOf(st.Trace, faultable[pos-1]), mode, backendClass(backend))
 			}
@@ -575,6 +606,18 @@ func RunInvalid(c *core.Ctx) {
 			return
 		}
 		if !compareSnap(c, h, s0, sc.name, "invalid:partial-effect:"+opName(sc.name)) {
+			return
+		}
+		// and nothing of it is visible through the API of the same handle
+		d.Count(&model.Query{Coll: "t"})
+		d.ListIndexes("t")
+		for _, ghost := range []string{"fresh", "imp", "imp2", "imp3", "nope"} {
+			d.HasCollection(ghost)
+			d.Count(&model.Query{Coll: ghost})
+			d.FindAll(&model.Query{Coll: ghost})
+		}
+		d.ListCollections()
+		if d.failed {
 			return
 		}
 		c.Cell("invalid|%s|idx%d|%s", sc.name, nIdx, backendClass(backend))
